@@ -244,4 +244,27 @@ theorem tracePost_copy_head (k : Kind) (zero : Cell → Bool) (s d : Rng) (B : L
   congr 2
   simp
 
+theorem tracePre_skip (k : Kind) (zero : Cell → Bool) (A B : List Entry) (c : Cell)
+    (h : ∀ e ∈ A, e.preWrites c = false) : tracePre k zero (A ++ B) c = tracePre k zero B c := by
+  induction A with
+  | nil => rfl
+  | cons e A ih =>
+    have he := h e (List.mem_cons_self ..)
+    have ih' := ih (fun e' he' => h e' (List.mem_cons_of_mem _ he'))
+    cases e <;> simp only [List.cons_append, tracePre, he, Bool.false_eq_true, if_false, ih']
+
+theorem tracePre_none_written (k : Kind) (zero : Cell → Bool) (A : List Entry) (c : Cell)
+    (h : ∀ e ∈ A, e.preWrites c = false) : tracePre k zero A c = some (.init c) := by
+  have := tracePre_skip k zero A [] c h
+  simpa [tracePre] using this
+
+theorem tracePre_copy_head (k : Kind) (zero : Cell → Bool) (s d : Rng) (B : List Entry) (j : Nat)
+    (hj : j < s.len) (hne : s.node ≠ d.node) :
+    tracePre k zero (.copy s d :: B) (d.node, d.beg + j) = tracePre k zero B (s.node, s.beg + j) := by
+  have hw : (Entry.copy s d).preWrites (d.node, d.beg + j) = true := by
+    simp only [Entry.preWrites]; rw [Rng.has_iff]; simp; omega
+  simp only [tracePre, hw, if_true, hne, ne_eq, not_false_eq_true]
+  congr 2
+  simp
+
 end MpVerif.C04
